@@ -661,6 +661,8 @@ def cmd_check(pid, tier):
     mod = load_prop(pid)
     if hasattr(mod, "run"):
         return mod.run(tier, seed)
+    if getattr(mod, "ENGINE", "seq") == "conc":
+        return ConcCheck(mod).run(tier, seed)
     return SeqCheck(mod).run(tier, seed)
 
 
@@ -673,6 +675,10 @@ def cmd_replay(path):
     if "scenario" not in d:
         log("replay names a broken proof/correspondence only: %s" % d.get("detail", "")[:500])
         return cmd_check(pid, "quick")
+    if d.get("engine") == "conc":
+        scn = sx.loads(d["scenario"])
+        scn = [f for f in scn if not (isinstance(f, list) and f and f[0] == "sched")] + [["sched"] + list(d.get("sched", ["random", 0, 1]))]
+        return ConcCheck(mod).run("quick", int(d.get("seed", 1)), only=[{"scn": scn, "meta": {"replay": True}}])
     return SeqCheck(mod).run("quick", int(d.get("seed", 1)), only_lines=[d["scenario"]])
 
 
@@ -694,3 +700,200 @@ def main(argv):
         return 0
     log("unknown command")
     return 2
+
+
+# ================================================================ concurrent check engine
+def conc_bin():
+    return os.path.join(SCRATCH, "target", "debug", "rxconc")
+
+
+def parse_cobs(line):
+    try:
+        x = sx.loads(line)
+    except Exception:
+        return {"status": "unreadable", "ev": [], "live": [], "names": [], "seed": -1, "raw": line}
+    f = x[1:]
+    d = {"status": (sx.field(f, "status") or ["?"])[0], "seed": int((sx.field(f, "seed") or ["-1"])[0]),
+         "steps": int((sx.field(f, "steps") or ["0"])[0]), "vt": int((sx.field(f, "vt") or ["0"])[0]),
+         "panics": int((sx.field(f, "panics") or ["0"])[0]), "timelimit": (sx.field(f, "timelimit") or ["0"])[0],
+         "live": sx.field(f, "live"), "names": sx.field(f, "names"), "ev": sx.field(f, "ev"), "choices": sx.field(f, "choices"),
+         "msg": " ".join(map(str, sx.field(f, "msg")))}
+    return d
+
+
+def _run_conc_shard(lines, results, offset, stall):
+    tmp = os.path.join(SCRATCH, "tmp")
+    os.makedirs(tmp, exist_ok=True)
+    path = os.path.join(tmp, "cshard_%d_%d.txt" % (os.getpid(), offset))
+    with open(path, "w") as f:
+        f.write("\n".join(lines) + "\n")
+    start = 0
+    while start < len(lines):
+        p = subprocess.Popen([conc_bin(), str(start)], stdin=open(path), stdout=subprocess.PIPE, stderr=subprocess.DEVNULL, preexec_fn=_limit)
+        cur, buf, acc = None, b"", []
+        while True:
+            r, _, _ = select.select([p.stdout], [], [], stall)
+            if not r:
+                p.kill()
+                p.wait()
+                if cur is None:
+                    cur = start
+                results[offset + cur] = acc + [{"status": "harness-hang", "ev": [], "live": [], "names": [], "seed": -1}]
+                start = cur + 1
+                break
+            chunk = os.read(p.stdout.fileno(), 1 << 16)
+            if not chunk:
+                p.wait()
+                if cur is not None and results[offset + cur] is None:
+                    results[offset + cur] = acc + [{"status": "harness-crash", "ev": [], "live": [], "names": [], "seed": -1}]
+                    start = cur + 1
+                else:
+                    start = len(lines)
+                break
+            buf += chunk
+            while b"\n" in buf:
+                line, buf = buf.split(b"\n", 1)
+                line = line.decode("utf-8", "replace")
+                if line.startswith("BEGIN "):
+                    cur = int(line.split()[1])
+                    acc = []
+                elif line.startswith("END "):
+                    results[offset + int(line.split()[1])] = acc
+                    acc = []
+                elif line.startswith("(cobs"):
+                    acc.append(parse_cobs(line))
+                elif line.startswith("(dfs-done"):
+                    acc.append({"status": "dfs-done", "complete": line.split()[1] == "1", "ev": [], "live": [], "names": [], "seed": -1})
+    try:
+        os.remove(path)
+    except OSError:
+        pass
+
+
+def run_conc(lines, stall=60.0):
+    """Run concurrent scenarios on rxconc; returns, per scenario, the list of parsed observations (one per schedule)."""
+    results = [None] * len(lines)
+    nsh = max(1, min(NCPU, len(lines)))
+    size = (len(lines) + nsh - 1) // nsh
+    threads = []
+    for k in range(nsh):
+        lo, hi = k * size, min(len(lines), (k + 1) * size)
+        if lo >= hi:
+            break
+        t = threading.Thread(target=_run_conc_shard, args=(lines[lo:hi], results, lo, stall))
+        t.start()
+        threads.append(t)
+    for t in threads:
+        t.join()
+    return [r if r is not None else [] for r in results]
+
+
+def driver_lines(cmd, lines):
+    """feed lines to a driver sub-command, return its stdout lines"""
+    p = subprocess.run([driver_bin()] + cmd, input="\n".join(lines) + "\n", stdout=subprocess.PIPE, stderr=subprocess.PIPE, text=True)
+    out = [l for l in p.stdout.split("\n") if l]
+    if len(out) != len(lines):
+        raise RuntimeError("driver %s: %d answers for %d inputs\n%s" % (cmd, len(out), len(lines), p.stderr[-2000:]))
+    return out
+
+
+def callbacks_of(ob, tag="cb"):
+    """(subscriber, event sexp, begin position of the call it belongs to, start position, return position, tid) for every
+    callback of kind `tag` in one observation; positions are indices into the event list (= log order)"""
+    out = []
+    open_call = {}     # tid -> stack of call positions
+    open_cb = {}       # (tid, sub) -> stack of indices into out
+    for pos, r in enumerate(ob["ev"]):
+        tid, t = r[2], r[3]
+        if t == "call":
+            open_call.setdefault(tid, []).append(pos)
+        elif t == "ret":
+            if open_call.get(tid):
+                open_call[tid].pop()
+        elif t == tag:
+            begin = open_call[tid][-1] if open_call.get(tid) else -1
+            out.append([r[4], r[5], begin, pos, 10 ** 9, tid])
+            open_cb.setdefault((tid, r[4]), []).append(len(out) - 1)
+        elif t == tag + "ret":
+            st = open_cb.get((tid, r[4]))
+            if st:
+                out[st.pop()][4] = pos
+    return out
+
+
+class ConcCheck:
+    """Engine for the properties decided under the scheduling runtime.  A property module provides
+       PID, RULE, ASSUMPTIONS, generate(rng, tier) -> list of cases (dict with 'scn': scenario s-expression as nested lists),
+       judge(cases, runs) -> dict(violations=[(case index, seed, why)], unshown=[(case index, seed, why)],
+                                  nontrivial=set of keys, extra=dict for the evidence)."""
+
+    def __init__(self, mod):
+        self.m = mod
+
+    def run(self, tier, seed, only=None):
+        m = self.m
+        pid = m.PID
+        t0 = time.time()
+        rng = random.Random(seed)
+        proofs = check_proofs(pid, getattr(m, "ALLOW_AXIOMS", ()))
+        ok, out = build_driver()
+        if not ok:
+            return SeqCheck(m).fail_infra(pid, tier, seed, t0, "driver build failed: " + out[-2000:], proofs)
+        ok, out = build_impl("conc")
+        if not ok:
+            return SeqCheck(m).fail_infra(pid, tier, seed, t0, out[-3000:], proofs)
+        cases = only if only is not None else m.generate(rng, tier, seed)
+        lines = [sx.dumps(c["scn"]) for c in cases]
+        runs = run_conc(lines)
+        res = m.judge(cases, runs)
+        known = [k for k in load_known() if k.get("property") == pid and k.get("status") == "known"]
+        known_ids = set(k["id"] for k in known)
+        viol, knownhits = [], {}
+        for v in res["violations"]:
+            cls = m.classify(cases[v[0]], v) if hasattr(m, "classify") else None
+            if cls is not None and cls in known_ids:
+                knownhits.setdefault(cls, []).append(v)
+            else:
+                viol.append(v)
+        status = 0
+        for cls, vs in sorted(knownhits.items()):
+            what = [k["what"] for k in known if k["id"] == cls][0]
+            log("KNOWN-FINDING: property=%s %s [%s] (%d schedules, e.g. %s seed %s)" % (pid, what, cls, len(vs), lines[vs[0][0]], vs[0][1]))
+        if viol:
+            v = min(viol, key=lambda x: len(lines[x[0]]))
+            p = write_replay(pid, "violation", {"scenario": lines[v[0]], "sched": v[1], "why": v[2], "seed": seed, "engine": "conc",
+                                                "n_violating_schedules": len(viol)})
+            log("VIOLATION property=%s replay=%s" % (pid, p))
+            status = 1
+        unshown = [u for u in res.get("unshown", []) if not ((m.classify(cases[u[0]], u) if hasattr(m, "classify") else None) in known_ids)]
+        if status == 0 and (not proofs["ok"] or unshown):
+            payload = {"seed": seed, "engine": "conc"}
+            if not proofs["ok"]:
+                payload.update({"broken": "proof", "theorems": proofs["theorems"], "detail": proofs["detail"]})
+            if unshown:
+                u = min(unshown, key=lambda x: len(lines[x[0]]))
+                payload.update({"broken": (payload.get("broken", "") + "+correspondence").strip("+"), "scenario": lines[u[0]], "sched": u[1], "why": u[2],
+                                "n_disagreements": len(unshown)})
+            p = write_replay(pid, "unshown", payload)
+            log("VIOLATION property=%s replay=%s no-failing-input-found" % (pid, p))
+            status = 1
+        nruns = sum(len([o for o in r if o.get("status") != "dfs-done"]) for r in runs)
+        wall = time.time() - t0
+        statuses = _count(o.get("status") for r in runs for o in r)
+        samples = [lines[i] for i in sorted(set([0, len(lines) // 2, len(lines) - 1]))] if lines else []
+        cov = {
+            "obligations": max(1, proofs["obligations"]), "discharged": proofs["discharged"],
+            "checker_cmd": "make -C coq (coq_makefile, full .vo build) ; make Props/%s.vo with Print Assumptions ; grep for Admitted/Axiom/..." % pid,
+            "trusted_base": TRUSTED_BASE + ["axioms used: " + (", ".join(proofs["axioms"]) or "none")],
+            "theorems": proofs["theorems"], "proof_detail": proofs["detail"],
+            "evaluations": nruns, "distinct_nontrivial": len(res.get("nontrivial", ())), "rule": m.RULE, "samples": samples,
+            "scenarios": len(lines), "schedules_run": nruns, "run_statuses": statuses,
+            "traces_validated_against_impl": nruns - len(res.get("unshown", [])), "disagreements_checked": len(res.get("unshown", [])),
+            "impl_oracle_failures": len(res["violations"]), "known_finding_hits": {k: len(v) for k, v in knownhits.items()},
+        }
+        cov.update(res.get("extra", {}))
+        write_evidence(pid, tier, seed, cov, m.ASSUMPTIONS, wall, 1 if status else 0)
+        log("%s: %d scenarios, %d schedules, %d distinct non-trivial observations, %d oracle failures (%d known), %d unexplained, proofs %s, %.1fs" % (
+            pid, len(lines), nruns, len(res.get("nontrivial", ())), len(res["violations"]), sum(len(v) for v in knownhits.values()), len(unshown),
+            "ok (%d theorems)" % proofs["discharged"] if proofs["ok"] else "BROKEN: " + proofs["detail"][:200], wall))
+        return status
